@@ -26,4 +26,39 @@ PROPS = {
         "trusted": ["Model.Wire index-walk loops mirror attributes.go by hand; tied by this run's correspondence"],
         "assumptions": ["Go slice/append semantics as mirrored in RV.Model.Wire"],
     },
+    "C03": {
+        "level": "proof",
+        "rule": "Packets x all codes -2..300 x secrets (incl. empty) through Encode; request/reply pairs (reply built from the parsed request) "
+                "with single-byte corruption and a different secret; authentic and damaged (bit flip, truncation, extension) datagrams through "
+                "both predicates; New() called 64 times per case.",
+        "level_text": "Lean theorems for an arbitrary 16-byte hash H: Encode's authenticator equals the RFC formula for every code (per-code table complete over 0..255, "
+                      "closed by kernel evaluation against the table probed from the code), the predicates are true iff the RFC formula holds, Encode and the predicates "
+                      "are mutually consistent, and acceptance of a tampered datagram is exactly an H-collision on distinct inputs; tied to packet.go by the probed tables "
+                      "and a differential run with H := a Lean MD5 written from RFC 1321.",
+        "level_note": "Trusted: Lean kernel; RV.Model.Auth as mirror of packet.go (validated by correspondence + per-code tables); no cryptographic strength of MD5 is claimed; "
+                      "freshness of crypto/rand is the OS's (call site checked syntactically, distinctness sampled).",
+        "trusted": ["Lean MD5 (RFC 1321) compared with crypto/md5 on every case through the Encode/predicate results", "go/ast fact: New reads from crypto/rand"],
+        "assumptions": ["crypto/rand returns fresh bytes"],
+    },
+    "C04": {
+        "level": "proof",
+        "rule": "Every plaintext length 0..140 x contents (random, printable, embedded/trailing NULs) x secrets (incl. empty) x authenticators (incl. wrong sizes) through "
+                "NewUserPassword and the round trip; every ciphertext length 0..300 through UserPassword.",
+        "level_text": "Lean theorems for an arbitrary 16-byte hash: NewUserPassword equals the RFC 2865 s5.2 ciphertext, has length 16*max(1,ceil(n/16)), refuses exactly the "
+                      "out-of-domain inputs, UserPassword inverts it up to the first NUL and accepts exactly lengths 16..128 in steps of 16; the Lean side computes the RFC ciphertext "
+                      "with its own MD5 so a two-sided error in the Go code is a disagreement.",
+        "level_note": "Trusted: Lean kernel; RV.Model.Password as mirror of attribute.go (validated by correspondence); Lean MD5.",
+        "trusted": ["Lean MD5 (RFC 1321)"],
+        "assumptions": [],
+    },
+    "C11": {
+        "level": "proof",
+        "rule": "Every password length 0..260 x contents x salts (high bit set/clear, wrong lengths) x secrets x authenticators through NewTunnelPassword and the round trip; "
+                "every attribute length 0..300 and genuine encodings with a corrupted embedded length through TunnelPassword.",
+        "level_text": "Lean theorems for an arbitrary 16-byte hash: NewTunnelPassword equals the RFC 2868 s3.5 encoding, the result plus a tag byte fits in one attribute, "
+                      "TunnelPassword returns the same password and salt, refusals are exactly the out-of-domain inputs, and the decoder's accept set is exact.",
+        "level_note": "Trusted: Lean kernel; RV.Model.Password as mirror of attribute.go (validated by correspondence); Lean MD5.",
+        "trusted": ["Lean MD5 (RFC 1321)"],
+        "assumptions": [],
+    },
 }
